@@ -87,7 +87,8 @@ class C11(UdpCheck):
         blocklist = []
         blocked_client = None
         if bl in ("attacker", "both"):
-            blocklist.append(BLOCKED_ATTACKER_IP)
+            # the operator may have copied the address as a dual stack socket reports it
+            blocklist.append(("::ffff:" if cfg["entry"] == "twisted" and rng.random() < 0.3 else "") + BLOCKED_ATTACKER_IP)
         if bl == "both" and n > 1:
             blocked_client = n - 1
             blocklist.append(client_addr(blocked_client)[0])
@@ -108,6 +109,8 @@ class C11(UdpCheck):
             srcmode = rng.choice(["fresh", "fresh", "victim", "blocked", "blocked-mapped", "port0", "one"])
             if srcmode == "blocked-mapped" and cfg.get("entry") != "twisted":
                 srcmode = "blocked"     # only the Twisted entry can listen on a dual stack socket; _UdpServer is AF_INET
+            if srcmode == "blocked" and any(b.startswith("::ffff:") for b in blocklist):
+                srcmode = "blocked-mapped"      # an entry in mapped spelling names the peer of a dual stack socket
             plan.append({"op": "flood", "global": True, "t": round(0.6 + rng.random() * (dur - 4.5), 3), "kind": kind,
                          "srcmode": srcmode, "count": rng.choice([100, 400, 1500]), "spread": rng.choice([0.0, 0.05, 0.5]),
                          "n": j, "victim": rng.randrange(n)})
@@ -130,7 +133,7 @@ class C11(UdpCheck):
 
     def monitors(self, case):
         self.mon = HostileMonitor()
-        self.mon.blocklist = set(case["cfg"]["server"].get("blocklist") or ())
+        self.mon.blocklist = set(HostileMonitor.ip((b,)) for b in case["cfg"]["server"].get("blocklist") or ())
         self.qc = QueueConservation()
         return [self.mon, self.qc]
 
